@@ -14,9 +14,10 @@ package agreement
 import (
 	"fmt"
 	"reflect"
-	"sort"
 	"sync"
 	"unsafe"
+
+	"github.com/algorand/go-algorand/data/bookkeeping"
 )
 
 var eagrPlainCache sync.Map // reflect.Type -> bool
@@ -88,12 +89,10 @@ func eagrPlain(t reflect.Type) bool {
 
 // eagrShared lists types whose values are immutable in the explorers and therefore shared, not copied.
 func eagrShared(t reflect.Type) bool {
-	switch t.PkgPath() + "." + t.Name() {
-	case "github.com/algorand/go-algorand/data/bookkeeping.Block":
-		return true
-	}
-	return false
+	return t == eagrBlockType
 }
+
+var eagrBlockType = reflect.TypeOf(bookkeeping.Block{})
 
 var eagrRouterTypes = map[string]bool{"rootRouter": true, "roundRouter": true, "periodRouter": true, "stepRouter": true}
 
@@ -225,14 +224,44 @@ func (c *eagrCopier) copyState(p *player, rr *rootRouter) (player, rootRouter) {
 // eagrDiffOpts configures eagrDiff.
 type eagrDiffOpts struct {
 	skip map[string]string // "Type.field" -> reason (documented as not persisted)
+	memo sync.Map          // reflect.Type -> bool: comparable with == (plain, comparable, no skipped field inside)
 }
 
-// eagrDiff returns "" if a and b (addressable values of the same type) are structurally equal over
-// all fields not in the skip list, else a description of the first difference found.
+func (o *eagrDiffOpts) fast(t reflect.Type) bool {
+	if v, ok := o.memo.Load(t); ok {
+		return v.(bool)
+	}
+	res := eagrPlain(t) && t.Comparable() && o.noSkip(t)
+	o.memo.Store(t, res)
+	return res
+}
+
+func (o *eagrDiffOpts) noSkip(t reflect.Type) bool {
+	switch t.Kind() {
+	case reflect.Array:
+		return o.noSkip(t.Elem())
+	case reflect.Struct:
+		for i := 0; i < t.NumField(); i++ {
+			if _, z := o.skip[t.Name()+"."+t.Field(i).Name]; z || !o.noSkip(t.Field(i).Type) {
+				return false
+			}
+		}
+	}
+	return true
+}
+
+// eagrDiff returns "" if a and b (values of the same type) are structurally equal over all fields
+// not in the skip list (nil and empty maps/slices are equal), else a description of a difference.
 func eagrDiff(path string, a, b reflect.Value, o *eagrDiffOpts) string {
 	t := a.Type()
 	if t != b.Type() {
 		return fmt.Sprintf("%s: type %v vs %v", path, t, b.Type())
+	}
+	if o.fast(t) {
+		if !a.Equal(b) {
+			return fmt.Sprintf("%s: %v vs %v", path, eagrShort(a), eagrShort(b))
+		}
+		return ""
 	}
 	switch t.Kind() {
 	case reflect.Ptr:
@@ -254,12 +283,14 @@ func eagrDiff(path string, a, b reflect.Value, o *eagrDiffOpts) string {
 		if ea.Type() != eb.Type() {
 			return fmt.Sprintf("%s: dynamic type %v vs %v", path, ea.Type(), eb.Type())
 		}
-		ta := reflect.New(ea.Type()).Elem()
-		ta.Set(ea)
-		tb := reflect.New(eb.Type()).Elem()
-		tb.Set(eb)
-		return eagrDiff(path, ta, tb, o)
+		return eagrDiff(path, eagrAddr(ea), eagrAddr(eb), o)
 	case reflect.Struct:
+		if !a.CanAddr() {
+			a = eagrAddr(a)
+		}
+		if !b.CanAddr() {
+			b = eagrAddr(b)
+		}
 		for i := 0; i < t.NumField(); i++ {
 			name := t.Name() + "." + t.Field(i).Name
 			if _, ok := o.skip[name]; ok {
@@ -274,33 +305,21 @@ func eagrDiff(path string, a, b reflect.Value, o *eagrDiffOpts) string {
 		if a.Len() != b.Len() {
 			return fmt.Sprintf("%s: map length %d vs %d", path, a.Len(), b.Len())
 		}
-		keys := a.MapKeys()
-		sort.Slice(keys, func(i, j int) bool { return fmt.Sprint(keys[i]) < fmt.Sprint(keys[j]) })
-		for _, k := range keys {
+		it := a.MapRange()
+		for it.Next() {
+			k := it.Key()
 			vb := b.MapIndex(k)
 			if !vb.IsValid() {
 				return fmt.Sprintf("%s[%v]: missing on the right", path, eagrShort(k))
 			}
-			ta := reflect.New(t.Elem()).Elem()
-			ta.Set(a.MapIndex(k))
-			tb := reflect.New(t.Elem()).Elem()
-			tb.Set(vb)
-			if d := eagrDiff(fmt.Sprintf("%s[%v]", path, eagrShort(k)), ta, tb, o); d != "" {
+			if d := eagrDiff(fmt.Sprintf("%s[%v]", path, eagrShortKey(k)), it.Value(), vb, o); d != "" {
 				return d
 			}
 		}
 		return ""
-	case reflect.Slice:
+	case reflect.Slice, reflect.Array:
 		if a.Len() != b.Len() {
-			return fmt.Sprintf("%s: slice length %d vs %d", path, a.Len(), b.Len())
-		}
-		fallthrough
-	case reflect.Array:
-		if eagrPlain(t.Elem()) && t.Elem().Comparable() && t.Kind() == reflect.Array {
-			if a.Interface() != b.Interface() {
-				return fmt.Sprintf("%s: %v vs %v", path, eagrShort(a), eagrShort(b))
-			}
-			return ""
+			return fmt.Sprintf("%s: length %d vs %d", path, a.Len(), b.Len())
 		}
 		for i := 0; i < a.Len(); i++ {
 			if d := eagrDiff(fmt.Sprintf("%s[%d]", path, i), a.Index(i), b.Index(i), o); d != "" {
@@ -311,26 +330,26 @@ func eagrDiff(path string, a, b reflect.Value, o *eagrDiffOpts) string {
 	case reflect.Chan, reflect.Func, reflect.UnsafePointer:
 		return ""
 	default:
-		var eq bool
-		switch t.Kind() {
-		case reflect.Bool:
-			eq = a.Bool() == b.Bool()
-		case reflect.Int, reflect.Int8, reflect.Int16, reflect.Int32, reflect.Int64:
-			eq = a.Int() == b.Int()
-		case reflect.Uint, reflect.Uint8, reflect.Uint16, reflect.Uint32, reflect.Uint64, reflect.Uintptr:
-			eq = a.Uint() == b.Uint()
-		case reflect.String:
-			eq = a.String() == b.String()
-		case reflect.Float32, reflect.Float64:
-			eq = a.Float() == b.Float()
-		default:
-			eq = true
-		}
-		if !eq {
+		if t.Comparable() && !a.Equal(b) {
 			return fmt.Sprintf("%s: %v vs %v", path, eagrShort(a), eagrShort(b))
 		}
 		return ""
 	}
+}
+
+// eagrAddr returns an addressable copy of v.
+func eagrAddr(v reflect.Value) reflect.Value {
+	x := reflect.New(v.Type()).Elem()
+	x.Set(v)
+	return x
+}
+
+func eagrShortKey(v reflect.Value) string {
+	switch v.Kind() {
+	case reflect.Uint, reflect.Uint64, reflect.Uint32, reflect.Int, reflect.Int64:
+		return fmt.Sprint(v)
+	}
+	return "…"
 }
 
 func eagrShort(v reflect.Value) string {
